@@ -255,6 +255,9 @@ C09(r) ==
    \cup (IF Ran(r) /\ \E s \in Scens(r) : ~Sel(r, s) /\
               (IF ~Cut(r) /\ NoHookFault(r) THEN r.end.status[s] # "skipped" \/ Rng(r.end.step_status[s]) \ {"skipped"} # {}
                ELSE r.end.status[s] \notin ({"skipped", "untested"} \cup
+                                             \* (a scenario without any step that the cut run never reached computes its status
+                                             \*  from nothing: the status of childless elements is outside C03 and not judged here)
+                                             (IF Len(StepsOf(r, s)) = 0 THEN {"passed"} ELSE {}) \cup
                                              \* (excluded by its own before_scenario hook: its after hooks still run and may raise)
                                              (IF SelBefore(r, s) /\ OwnHookRaised(r, s) THEN {"hook_error"} ELSE {})))
          THEN {"C09.unselected_skipped"} ELSE {})
